@@ -31,6 +31,7 @@ struct AccessResult
     std::string detail;
     size_t views = 0;
     size_t viewBytes = 0;
+    std::vector<View>* record = nullptr;  // if set, every in-range view is also appended here (to be re-checked later)
 };
 
 inline void foldBytes(AccessResult& a, const uint8_t* p, size_t n)
@@ -72,6 +73,8 @@ inline void checkViews(AccessResult& a, const ASAM::CMP::Payload& p, const std::
         }
         a.viewBytes += v.len;
         foldBytes(a, v.ptr, v.len);
+        if (a.record)
+            a.record->push_back(v);
     }
 }
 
